@@ -27,6 +27,46 @@ CHECKS = {
         technique="runtime differential monitoring: byte comparison with reference KeyGen_internal, RNG request log",
         text="Seeded and RNG-driven key generation (three entry points) compared byte-for-byte with the reference KeyGen_internal over fixed, single-bit, random and rare-sampler-event seeds; the recording RNG proves one 32-byte fallible draw and no other source of variation.",
         design_ref="5/C04", note=REF_NOTE),
+    "C05": dict(
+        technique="runtime monitoring: exhaustive single-bit mutation of valid tuples against verify(), reference cross-check",
+        text="For each valid (pk, M, ctx, mode, sig) tuple — honest keys in all modes, a heavy-hint tuple, a degenerate-key tuple — every bit position of the signature, serialised public key, message and context is flipped and verify must return false; exhaustive over positions per tuple; acceptances and a 1% sample of rejections are cross-checked with the reference.",
+        design_ref="5/C05", note=REF_NOTE),
+    "C06": dict(
+        technique="runtime monitoring: verify() oracle over every alternative interpretation of signed bytes (all splits, cross-mode mimicry, other PH)",
+        text="Signatures are re-verified under every other ctx/message split of the same concatenation (all i <= 255), under messages crafted to mimic the other mode's formatted input, and under every other pre-hash function; all must be rejected while the original verifies; the reference runs on the same alternatives.",
+        design_ref="5/C06", note=REF_NOTE),
+    "C07": dict(
+        technique="runtime monitoring: exhaustive context-length sweep with alias forgeries (crate signer and reference-made literal encodings)",
+        text="Every context length 0..=1100 (thorough 0..=70000) x 4 modes x 3 sets: Ok/Err pattern of signing, true/false of verify, and alias forgeries for wrapped / truncated / saturated length bytes must be rejected.",
+        design_ref="5/C07", note=REF_NOTE),
+    "C08": dict(
+        technique="runtime differential monitoring of codec hooks against bit-literal reference codecs; exhaustive byte-string sweeps at reduced hint parameters",
+        text="sig_decode/sig_encode, hint_bit_unpack/pack, bit_unpack/pack, pk/sk/w1 codecs are driven through verif_hooks on honest, mutated, boundary and malformed inputs and compared with Algorithms 16-28 of the reference; re-encoding identity is checked on every accepted input; the hint codec is enumerated over ALL byte strings at (K,omega) in {(1,1),(1,2),(2,1)} (thorough: (1,3),(2,2),(3,1), 2^32 strings each) including the bijection count.",
+        design_ref="5/C08", note=REF_NOTE + " The reduced-parameter sweeps exercise the same generic code as the real (K, omega) but are not the real parameters."),
+    "C09": dict(
+        technique="runtime monitoring: byte-identity round trips on constructed extremal encodings, behavioural equivalence of original vs round-tripped keys",
+        text="Public-key byte strings (extremal, per-slot extremes, random) and accepted private-key encodings (every pattern of range ends, arbitrary rho/K/tr/t0) are deserialised and re-serialised and must be byte-identical; generated vs round-tripped keys must sign identically and decide identically on valid, mutated and boundary inputs; run in release and checked builds.",
+        design_ref="5/C09", note=REF_NOTE),
+    "C10": dict(
+        technique="runtime monitoring: exhaustive single-field corruption partition of the private-key encoding against try_from_bytes",
+        text="All (vector, polynomial, coefficient, out-of-range field value) single-field corruptions of two base keys per set (6144/19712/11520 x 2) must be rejected, multi-field corruptions too; all in-range field values and extremal in-range keys must be accepted and re-serialise without tripping the range self-check (checked build).",
+        design_ref="5/C10", note="Trusted base: the harness's bit-field writer and the reference skDecode range predicate; rustc. The reject side is exhaustive over single-field corruptions of the chosen bases, not over all byte strings."),
+    "C11": dict(
+        technique="runtime monitoring: derived vs generated vs deserialised public key compared in bytes and in verification decisions",
+        text="get_public_key() of generated and round-tripped private keys is compared byte-for-byte with the generated key and the reference, and in decisions on valid signatures of all modes, mutants, wrong-context and other-key probes; hostile accepted keys are compared with the reference's pk from (rho, s1, s2).",
+        design_ref="5/C11", note=REF_NOTE),
+    "C12": dict(
+        technique="fault injection at the caller's RngCore (fault matrix), recording RNG log, single-bit influence sweep, getrandom syscall monitor",
+        text="Complete fault matrix entry point x set x failing request x fault kind (error before write, after partial write with poisoned tail, after full write): Err without unwinding whenever the fault fires; strict RNG proves only try_fill_bytes(32) is used; all 256 bits of every draw are flipped and must change pk, sk and signature; OS-RNG functions give pairwise distinct outputs (thorough: strace counts one getrandom(32) per call).",
+        design_ref="5/C12", note="Trusted base: rand_core 0.6 trait semantics; strace for the syscall stage. The matrix is complete for the fault kinds listed; other RNG misbehaviour (e.g. returning Ok with constant bytes) is outside the property."),
+    "C13": dict(
+        technique="runtime panic monitor (catch_unwind + panic hook + exit-signal) over hostile workloads in a checked build (debug assertions + overflow checks as online invariant monitors)",
+        text="Every public call is driven with random bytes, structure-aware hostile-but-accepted private keys (then serialised, derived, used to sign in all modes), extremal and malformed signatures, degenerate public keys, adversarial sparse-coset fixtures, long messages and contexts, and the rejection-heavy hostile-t0 signing workload; any unwind or abort is a violation keyed on (panic location, API, input class).",
+        design_ref="5/C13, 2.5", note="Trusted base: rustc's overflow checks and the crate's own debug_assert!s as the monitors; the structure-aware generators reach only what they construct. No proof of panic freedom."),
+    "C15": dict(
+        technique="runtime monitoring by exhaustive domain sweeps through verif_hooks against big-integer definitions",
+        text="Each scalar function is evaluated on its whole input domain (2^23-2^32 points; thorough is exhaustive: 3.4e11 evaluations; quick sweeps the 2^23/2^24 domains fully and the 2^32 domains at a seeded stride plus boundary windows) and compared with i64/i128 definitions; the checked build replays a strided subset so the crate's own range assertions monitor the same inputs.",
+        design_ref="5/C15", note="Trusted base: the big-integer definitions (cross-checked against the reference model), rustc. mont_reduce is exhaustive over low words for 74 high words, not over all 2^54 inputs."),
 }
 
 ALL = [f"C{i:02d}" for i in range(1, 19)]
